@@ -191,6 +191,7 @@ func (l *listener) handleRawConn(rawConn net.Conn) {
 	conn := l.wrapRawConn(rawConn)
 	connCreatedAt := time.Now()
 
+	vhook.At("listener.conn.before_register")
 	if !l.addConn(conn) {
 		conn.Close()
 		return
